@@ -802,7 +802,7 @@ _register()
 # bounded stand-ins (native evaluation of a contract on sampled inputs; never counted as proved)
 # -------------------------------------------------------------------------------------------------
 
-from pycv.framework import BOUNDED_OK, REFUTED, Result  # noqa: E402
+from pycv.framework import BOUNDED_OK, DISCHARGED, REFUTED, UNDECIDED, Result  # noqa: E402
 
 
 class BoundedNative:
@@ -988,6 +988,127 @@ register(Obligation(name="C11.cell_volume.abs_det_any_handedness", prop="C11", e
                         "cells and the Hartree energy to its sign, its value and its independence of the order of the lattice vectors"))
 
 
+def nat_grad_unocc(rng):
+    """Empty-band minimisation at fixed Hamiltonian: slope of the band energy of the empty states vs 2 Re<get_grad_unocc, D>; open-shell
+    system (Li, unrestricted: the minority channel of scf.Y holds a state with filling 0 that must not count as occupied), two k-points."""
+    from eminus.band_minimizer import get_grad_unocc, scf_step_unocc
+
+    scf, at = _native_scf(Nspin=2, xc="lda,pw", atom="Li")
+    f = np.asarray(at.occ.f)
+    if not (f == 0).any():
+        raise RuntimeError("harness: no zero-filled state in scf.Y")
+    scf._precompute()
+    Z0 = [rnd(rng, 2, len(at.Gk2c[ik]), 2) for ik in range(at.kpts.Nk)]
+    D = [rnd(rng, *z.shape) for z in Z0]
+    D = [d * np.linalg.norm(z) / np.linalg.norm(d) for z, d in zip(Z0, D)]
+
+    def E(t):
+        return scf_step_unocc(scf, [z + t * d for z, d in zip(Z0, D)])
+
+    h = 1e-3
+    slope = (8 * (E(h) - E(-h)) - (E(2 * h) - E(-2 * h))) / (12 * h)
+    lin = 0
+    for ik in range(at.kpts.Nk):
+        for sp in range(2):
+            g = get_grad_unocc(scf, ik, sp, Z0, **scf._precomputed)
+            lin += 2 * np.real(np.sum(np.asarray(g).conj() * D[ik][sp]))
+    return abs(slope - lin) / max(1.0, abs(slope))
+
+
+def nat_grad_without_kwargs(rng):
+    """get_grad / H called WITHOUT pre-computed fields build them from the coefficients they are given - whatever the SCF object still
+    holds from an earlier energy evaluation at other coefficients."""
+    from eminus.dft import get_grad
+
+    scf, at = _native_scf(Nspin=2, xc="pbe", atom="He")
+    W0 = [np.asarray(w) for w in scf.W]
+    W1 = [w + 0.2 * rnd(rng, *w.shape) for w in W0]
+    scf.W = [w.copy() for w in W0]
+    scf._precompute()  # the object now holds the fields of W0
+    e = 0.0
+    for ik in range(at.kpts.Nk):
+        for sp in range(2):
+            g_plain = np.asarray(get_grad(scf, ik, sp, W1))
+            scf2_fields = None
+            e = max(e, 0.0)
+            keep = scf._precomputed
+            scf.W = [w.copy() for w in W1]
+            scf._precompute()
+            g_ref = np.asarray(get_grad(scf, ik, sp, W1, **scf._precomputed))
+            scf.W = [w.copy() for w in W0]
+            scf._precompute()
+            e = max(e, float(np.abs(g_plain - g_ref).max() / max(1e-12, np.abs(g_ref).max())))
+    return e
+
+
+class ReadsFrame:
+    """Frame contract (reads): the attributes a function reads from one of its parameters are within an allowed set, and the parameter itself is
+    handed on only to callees whose own frame is listed. Decided on the AST of the tree under check (every path: an attribute that is not
+    mentioned cannot be read; getattr / vars / __dict__ on the parameter are rejected)."""
+
+    def __init__(self, module, func, param, allowed, callees):
+        self.module, self.func, self.param, self.allowed, self.callees = module, func, param, set(allowed), dict(callees)
+
+    def scan(self, module, func, param, allowed, seen):
+        import ast
+        import os
+
+        path = os.path.join(os.environ.get("EMINUS_REPO", "/repo"), *module.split(".")) + ".py"
+        tree = ast.parse(open(path).read())
+        fn = next((n for n in ast.walk(tree) if isinstance(n, ast.FunctionDef) and n.name == func), None)
+        if fn is None:
+            return [f"{module}:{func} not found"]
+        bad = []
+        for n in ast.walk(fn):
+            if isinstance(n, ast.Attribute) and isinstance(n.value, ast.Name) and n.value.id == param and isinstance(n.ctx, ast.Load) and n.attr not in allowed:
+                bad.append(f"{func} reads {param}.{n.attr} (line {n.lineno})")
+            if isinstance(n, ast.Call):
+                nm = ast.unparse(n.func)
+                args = list(n.args) + [k.value for k in n.keywords]
+                if any(isinstance(a, ast.Name) and a.id == param for a in args):
+                    if nm in ("getattr", "vars", "hasattr") or nm.endswith("__dict__"):
+                        bad.append(f"{func}: reflective access {nm}({param}, ...) (line {n.lineno})")
+                    elif nm in self.callees:
+                        cm, cf, cp, ca = self.callees[nm]
+                        if (cm, cf) not in seen:
+                            seen.add((cm, cf))
+                            bad += self.scan(cm, cf, cp, set(ca), seen)
+                    else:
+                        bad.append(f"{func} hands {param} to {nm}, which has no reads-frame (line {n.lineno})")
+            if isinstance(n, ast.Attribute) and n.attr == "__dict__" and isinstance(n.value, ast.Name) and n.value.id == param:
+                bad.append(f"{func} reads {param}.__dict__ (line {n.lineno})")
+        return bad
+
+    def __call__(self, ob, tier, seed):
+        bad = self.scan(self.module, self.func, self.param, self.allowed, {(self.module, self.func)})
+        if bad:
+            ok, info = self.replay({})
+            return Result(REFUTED if ok else UNDECIDED, backend="ast-frame", witness=dict(reads=bad[:5]), replayed=ok, replay_info=info,
+                          detail=f"{self.func}: reads outside its frame: {bad[0]}")
+        return Result(DISCHARGED, backend="ast-frame", stats=dict(allowed=sorted(self.allowed)))
+
+    def replay(self, wit):
+        err = nat_grad_without_kwargs(np.random.default_rng(0))
+        return bool(err > 1e-10), dict(check="get_grad without keyword fields after an evaluation at other coefficients", rel_err=float(err))
+
+
+def _register_bounded3():
+    register(Obligation(name="C01.H_precompute.reads_only_inputs", prop="C01", engine="Z", functions=["eminus.dft:H_precompute", "eminus.dft:H"],
+                        run=ReadsFrame("eminus.dft", "H_precompute", "scf", ("atoms", "xc", "xc_type", "xc_params"), {}), assumes=("cpython",),
+                        doc="frame: H_precompute(scf, W) reads scf.atoms / xc / xc_type / xc_params only - the fields it returns are a function of W and of these inputs, "
+                            "never of what an earlier evaluation left in the SCF object"))
+    register(Obligation(name="C01.band_energy.slope_eq_2Re_grad_unocc_D", prop="C01", engine="B", bounded=True,
+                        functions=["eminus.band_minimizer:get_grad_unocc", "eminus.band_minimizer:scf_step_unocc", "eminus.dft:orth_unocc"],
+                        run=BoundedNative(nat_grad_unocc, 2, tol=2e-6, what="slope of the empty-band energy vs 2 Re<get_grad_unocc, D>, open-shell Li (a zero-filled state in scf.Y), two k-points"),
+                        budget={"quick": 200, "thorough": 900},
+                        doc="BOUNDED stand-in: band-energy derivative relation of the empty-band minimisation (fixed Hamiltonian), occupied states selected by filling"))
+    register(Obligation(name="C01.get_grad.fields_from_the_given_coefficients", prop="C01", engine="B", bounded=True,
+                        functions=["eminus.dft:get_grad", "eminus.dft:H", "eminus.dft:H_precompute"],
+                        run=BoundedNative(nat_grad_without_kwargs, 1, tol=1e-10, what="get_grad(scf, ik, spin, W1) without keyword fields vs the gradient with the fields of W1, after an evaluation at W0"),
+                        budget={"quick": 200, "thorough": 600},
+                        doc="BOUNDED: the keyword-less call builds the density-dependent fields from its own argument (no stale state of the SCF object enters)"))
+
+
 def nat_hermitian_even_grid_gga(rng):
     """H on the default (even) FFT grid with a GGA: |<a|Hb> - <Ha|b>| relative to |<a|Hb>|."""
     import eminus
@@ -1017,6 +1138,7 @@ def _register_even_grid():
 
 _register_bounded()
 _register_bounded2()
+_register_bounded3()
 _register_coarse()
 _register_families()
 _register_even_grid()
